@@ -44,11 +44,13 @@ Import ListNotations.
 Local Open Scope N_scope.
 
 (* an IP address as a mathematical object: family + value; the 16-byte form
-   ::ffff:a.b.c.d is the IPv4 address a.b.c.d *)
+   ::ffff:a.b.c.d (value / 2^32 = 0xffff) is the IPv4 address a.b.c.d
+   (value mod 2^32); written with shifts so that the extracted monitor is fast:
+   N.shiftr v 32 = v / 2^32, N.land v (N.ones 32) = v mod 2^32 *)
 Definition norm_ip (a : ip) : bool * N :=
   match a with
   | IP4 v => (true, v)
-  | IP16 v => if v / 2^32 =? 65535 then (true, v mod 2^32) else (false, v)
+  | IP16 v => if N.shiftr v 32 =? 65535 then (true, N.land v (N.ones 32)) else (false, v)
   end.
 
 Definition fam_bits (is4 : bool) : N := if is4 then 32 else 128.
@@ -71,8 +73,11 @@ Definition rid_eqb (a b : rid) : bool :=
    only if String() prints the same text for them (the identity the code
    uses); [textual = false] is the identity of the property: the same set of
    addresses is the same subnet. *)
+(* the top [len] bits of a value of the family ([N.shiftr v k] = v / 2^k) *)
+Definition top_bits (is4 : bool) (v len : N) : N := N.shiftr v (fam_bits is4 - len).
+
 Definition clear_host (is4 : bool) (nn len : N) : N :=
-  (nn / 2^(fam_bits is4 - len)) * 2^(fam_bits is4 - len).
+  N.shiftl (top_bits is4 nn len) (fam_bits is4 - len).
 
 Definition sub_id (textual is4 : bool) (nn len : N) : rid :=
   IdSubnet is4 (if textual then nn else clear_host is4 nn len) len.
@@ -102,7 +107,7 @@ Definition rid_matches (id : rid) (a : ip) : bool :=
   match id with
   | IdPeer _ => false
   | IdAddr f v => Bool.eqb f fa && (v =? va)
-  | IdSubnet f x len => Bool.eqb f fa && (va / 2^(fam_bits f - len) =? x / 2^(fam_bits f - len))
+  | IdSubnet f x len => Bool.eqb f fa && (top_bits f va len =? top_bits f x len)
   end.
 
 (* what is known about a rule from the calls and their results alone:
